@@ -56,7 +56,7 @@ pub struct Scenario {
     pub threads: Vec<Vec<PoolOp>>,
 }
 
-pub const TYPE_NAMES: [&str; 10] = ["u8", "u16", "i32", "f32", "u64", "[u8;3]", "[u8;16]", "[u32;4]", "[u16;2]", "[u8;4]"];
+pub const TYPE_NAMES: [&str; 11] = ["u8", "u16", "i32", "f32", "u64", "[u8;3]", "[u8;16]", "[u32;4]", "[u16;2]", "[u8;4]", "()"];
 
 #[derive(Clone, Debug, PartialEq)]
 enum State {
@@ -97,6 +97,12 @@ impl PoolModel {
         self.allocs += 1;
         if cap_got < cap_req {
             self.fail("C23/capacity-too-small", format!("alloc::<{}>({cap_req}) returned capacity {cap_got}", TYPE_NAMES[ty]));
+        }
+        // a Vec of a sized type that claims more than isize::MAX bytes cannot describe an allocation
+        // (this is what a buffer of a zero-sized type looks like when it is handed out as something else)
+        if size > 0 && cap_got.checked_mul(size).map(|b| b > isize::MAX as usize).unwrap_or(true) {
+            self.fail("C23/impossible-capacity", format!("alloc::<{}>({cap_req}) returned a Vec with capacity {cap_got:#x} at {ptr:#x}", TYPE_NAMES[ty]));
+            return;
         }
         if size > 0 && ptr % align != 0 {
             self.fail("C23/misaligned", format!("alloc::<{}> returned a pointer not aligned to {align}", TYPE_NAMES[ty]));
@@ -179,6 +185,8 @@ elem!([u8; 16], 6, |i| [i as u8; 16]);
 elem!([u32; 4], 7, |i| [i as u32; 4]);
 elem!([u16; 2], 8, |i| [i as u16; 2]);
 elem!([u8; 4], 9, |i| [i as u8; 4]);
+// a zero-sized element type: its Vec owns no memory (dangling pointer, capacity usize::MAX)
+elem!((), 10, |_| ());
 
 fn one_op<E: Elem + Copy + Send>(pool: &BufferPool, model: &StdMutex<PoolModel>, who: usize, opi: usize, op: &PoolOp, min_size: usize) {
     let size = std::mem::size_of::<E>();
@@ -188,6 +196,11 @@ fn one_op<E: Elem + Copy + Send>(pool: &BufferPool, model: &StdMutex<PoolModel>,
     let cap = v.capacity();
     model.lock().unwrap().on_alloc(who, E::IDX, ptr, op.cap, cap, size, align, min_size);
     // fill the whole capacity with a pattern unique to (thread, op)
+    if !model.lock().unwrap().violations.is_empty() {
+        // the buffer cannot be trusted: do not write through it, and do not let its destructor run
+        std::mem::forget(v);
+        return;
+    }
     let pattern = (who * 16 + opi + 1) as u8;
     let nbytes = cap.saturating_mul(size).min(1 << 20);
     if size > 0 && cap > 0 {
@@ -251,7 +264,8 @@ fn dispatch(pool: &BufferPool, model: &StdMutex<PoolModel>, who: usize, opi: usi
         6 => one_op::<[u8; 16]>(pool, model, who, opi, op, min_size),
         7 => one_op::<[u32; 4]>(pool, model, who, opi, op, min_size),
         8 => one_op::<[u16; 2]>(pool, model, who, opi, op, min_size),
-        _ => one_op::<[u8; 4]>(pool, model, who, opi, op, min_size),
+        9 => one_op::<[u8; 4]>(pool, model, who, opi, op, min_size),
+        _ => one_op::<()>(pool, model, who, opi, op, min_size),
     }
 }
 
